@@ -89,6 +89,12 @@ def bellmanFord (g : Graph) (src : Nat) : Except SearchErr (Dist × Pred) :=
   if (relaxOrder g).any (fun e => (improves dist e).isSome) then .error .negativeCycle
   else .ok (cache.getD dist, pred)
 
+/-- `best_d.map(|best| d >= best).unwrap_or(false)`. -/
+def pruned (best : Option Int) (d : Int) : Bool :=
+  match best with
+  | some b => decide (d ≥ b)
+  | none => false
+
 /-- `dfs_recursive`; `fuel` bounds the recursion depth (`max_steps + 2` suffices). -/
 def dfsRec (g : Graph) : Nat → Nat → Option Int → Option (Nat × Nat) → Nat → List Nat →
     Dist × Pred → Dist × Pred
@@ -98,7 +104,7 @@ def dfsRec (g : Graph) : Nat → Nat → Option Int → Option (Nat × Nat) → 
     match distance with
     | none => st
     | some d =>
-      if (match st.1 cur with | some best => decide (d ≥ best) | none => false) then st else
+      if pruned (st.1 cur) d then st else
       let visited' := cur :: visited
       let st0 : Dist × Pred := (setD st.1 cur d, setP st.2 cur predecessor)
       (outgoing g cur).foldl (fun st e =>
